@@ -59,6 +59,24 @@ def _times(rng: random.Random, t0: int, dt: int, steps: int, count: int) -> List
     return out
 
 
+def _fmt_time(rng: random.Random, t: int) -> str:
+    """a timestamp as a file may spell it: epoch digits, blank-padded, signed, ISO 8601"""
+    r = rng.random()
+    if t < 0:
+        return str(t) if r < 0.8 else f" {t}"
+    if r < 0.7 or t >= 10 ** 7:
+        return str(t)
+    if r < 0.78:
+        return f" {t}"
+    if r < 0.85:
+        return f"+{t}"
+    if r < 0.9:
+        return f"{t} "
+    from datetime import datetime, timezone
+
+    return datetime.fromtimestamp(t, tz=timezone.utc).replace(tzinfo=None).isoformat()
+
+
 def gen_case(rng: random.Random, k: int) -> Dict[str, Any]:
     search_res = rng.choice([7, 9, 9, 11])
     with_fleets = rng.random() < 0.5
@@ -97,7 +115,7 @@ def gen_case(rng: random.Random, k: int) -> Dict[str, Any]:
             o, d = rng.choice(w.cells), rng.choice(w.cells)
             (olat, olon), (dlat, dlon) = h3.h3_to_geo(o), h3.h3_to_geo(d)
             row = {"request_id": rid, "o_lat": repr(olat), "o_lon": repr(olon), "d_lat": repr(dlat), "d_lon": repr(dlon),
-                   "departure_time": str(dep), "passengers": str(rng.randint(1, 3))}
+                   "departure_time": _fmt_time(rng, dep), "passengers": str(rng.randint(1, 3))}
             fleet = None
             if fleet_col:
                 fleet = rng.choice(["", "", "fA", "fB"]) if rng.random() < 0.9 else "fA"
@@ -148,6 +166,9 @@ def gen_case(rng: random.Random, k: int) -> Dict[str, Any]:
         key_col = rng.choice(["station_id", "geoid"])
         n_pr = 0 if (not keys or rng.random() < 0.1) else rng.choice([1, 2, 5, 12, 30])
         ptimes = _times(rng, t0, dt, steps, n_pr)
+        if ptimes and rng.random() < 0.15:
+            # a tariff dated before the epoch: the only way to have one in force in the first step of a run starting at 0
+            ptimes = [rng.choice([-1, -60, -3600])] + ptimes[1:]
         price_rows = []
         model_prices = []
         n.fix("pkey", keys if keys else ["default"])
@@ -159,7 +180,7 @@ def gen_case(rng: random.Random, k: int) -> Dict[str, Any]:
             txt = repr(price)
             if rng.random() < 0.05:
                 txt, valid = rng.choice(["free", ""]), False
-            price_rows.append({"time": str(t), key_col: key, "charger_id": plug, "price_kwh": txt})
+            price_rows.append({"time": _fmt_time(rng, t), key_col: key, "charger_id": plug, "price_kwh": txt})
             model_prices.append({"time": t, "key": n.get("pkey", key), "plug": n.get("chg", plug), "price": q(price), "valid": valid})
         chargers_file = os.path.join(tmp, "chargers.csv")
         with open(chargers_file, "w", newline="") as f:
